@@ -5,7 +5,7 @@ import os
 from .. import common as C
 
 LEVEL = "proof"
-N = {"quick": 30000, "thorough": 100000}
+N = {"quick": 30000, "thorough": 60000}
 
 
 def _observe(binp, cases_text):
